@@ -3,6 +3,7 @@ import Mathlib.Data.Matrix.Basis
 import Mathlib.LinearAlgebra.Matrix.Trace
 import Mathlib.LinearAlgebra.Matrix.PosDef
 import Mathlib.LinearAlgebra.Matrix.ConjTranspose
+import Mathlib.LinearAlgebra.Matrix.Notation
 /-!
 # Specification of the channel predicates (`toqito/channel_props/*.py`) and of the built-in channels
 (`toqito/channels/*.py`) in Mathlib's matrix vocabulary
@@ -25,6 +26,7 @@ The predicates are the textbook definitions, *not* the tests the code performs:
 * `IsCP`        — `id_n ⊗ Φ` is positive for every `n`
 * `HasKraus`    — `Φ(X) = Σ_k K_k X K_kᴴ` for some finite family `K`
 * `IsUnitaryChannel` — `Φ(X) = U X Uᴴ` for a unitary `U`
+* `IsExtremeChannel` — a channel that is not a proper convex combination of two other channels
 -/
 open Matrix
 open scoped ComplexOrder
@@ -97,6 +99,20 @@ def HasKraus (Φ : LMap di dO) : Prop := ∃ (r : Nat) (K : Fin r → Matrix (Fi
 /-- quantum channel -/
 def IsChannel (Φ : LMap di dO) : Prop := IsCP Φ ∧ IsTP Φ
 
+/-- extreme point of the convex set of channels: a channel that is not a proper convex combination
+    `t·Φ₀ + (1-t)·Φ₁`, `0 < t < 1`, of two channels other than itself -/
+def IsExtremeChannel (Φ : LMap di dO) : Prop :=
+  IsChannel Φ ∧ ∀ (Φ₀ Φ₁ : LMap di dO) (t : ℝ), IsChannel Φ₀ → IsChannel Φ₁ → 0 < t → t < 1 →
+    Φ = (t : ℂ) • Φ₀ + ((1 - t : ℝ) : ℂ) • Φ₁ → Φ₀ = Φ ∧ Φ₁ = Φ
+
+/-- Choi matrix of a channel: positive semidefinite with `Tr_out J = 1` -/
+def IsChoiChannel (J : TMat di dO) : Prop := J.PosSemidef ∧ ptraceOut J = 1
+
+/-- extreme point of the convex set of Choi matrices of channels -/
+def IsChoiExtreme (J : TMat di dO) : Prop :=
+  IsChoiChannel J ∧ ∀ (J₀ J₁ : TMat di dO) (t : ℝ), IsChoiChannel J₀ → IsChoiChannel J₁ → 0 < t → t < 1 →
+    J = (t : ℂ) • J₀ + ((1 - t : ℝ) : ℂ) • J₁ → J₀ = J ∧ J₁ = J
+
 /-- unitary channel `X ↦ U X Uᴴ` -/
 def IsUnitaryChannel (Φ : LMap di di) : Prop :=
   ∃ U : Matrix (Fin di) (Fin di) ℂ, Uᴴ * U = 1 ∧ U * Uᴴ = 1 ∧ ∀ X, Φ X = U * X * Uᴴ
@@ -129,5 +145,9 @@ def reductionSpec (d : Nat) (k : ℂ) (X : Matrix (Fin d) (Fin d) ℂ) : Matrix 
     `Φ_{a,b,c}(X) = diag((a+1)x₀₀ + b x₁₁ + c x₂₂, c x₀₀ + (a+1)x₁₁ + b x₂₂, b x₀₀ + c x₁₁ + (a+1)x₂₂) - X` -/
 def choiMapSpec (a b c : ℂ) (X : Matrix (Fin 3) (Fin 3) ℂ) : Matrix (Fin 3) (Fin 3) ℂ :=
   Matrix.diagonal (fun s : Fin 3 => (a + 1) * X s s + b * X (s + 1) (s + 1) + c * X (s + 2) (s + 2)) - X
+
+/-- the two non-zero Kraus operators of the amplitude damping channel (`amplitude_damping(None, γ, 1)`):
+    `K₀ = diag(1, √(1-γ))`, `K₁ = √γ·E₀₁`, with `sg = √γ`, `cg = √(1-γ)` -/
+def adPair (sg cg : ℂ) : Fin 2 → Matrix (Fin 2) (Fin 2) ℂ := ![!![1, 0; 0, cg], !![0, sg; 0, 0]]
 
 end Toq.ChanPropSpec
